@@ -40,7 +40,7 @@ def run(ctx):
         st1[k] += st2[k]
     # approximate coordinates: every construction history of AcordModel.tla
     K1, K2 = '{"polar", "inter", "resect", "trilat", "trav"}', '{"polar", "polarA", "resectA", "ddb"}'
-    KALL = '{"polar", "polarA", "polarZ", "inter", "interZ", "resect", "resectA", "trilat", "ddb", "trav"}'
+    KALL = '{"polar", "polarA", "polarZ", "inter", "interZ", "resect", "resectA", "trilat", "ddb", "fs2", "trav"}'
     K3 = '{"polar", "polarZ", "interZ", "inter"}'
     if q:
         ra, ca = acordnets.generate(ctx, "c06d", {"NP": 5, "MaxExtra": 0, "Kinds": K1, "Keep": 211, "Seed": ctx.seed})
